@@ -348,6 +348,7 @@ func (t *TmStub) ABCIQuery(path string, data tmbytes.HexBytes) (*ctypes.ResultAB
 }
 
 func (t *TmStub) IsRunning() bool { return true }
+func (t *TmStub) Stop() error     { return nil }
 
 var _ = context.Background
 var _ = sdk.Address(nil)
